@@ -4,6 +4,21 @@ import json, os
 HERE = os.path.dirname(os.path.dirname(os.path.abspath(__file__)))
 
 CHECKS = {
+ "C01": dict(
+    technique="runtime monitoring: real generators vs reference object enumerators; exact model sets by truth table through decoded variable names; sampled witnesses/near misses beyond the cap",
+    text="Exploration: php (all m,n<=4 x functional x onto), graph php and subset cardinality on every bipartite graph with sides <= 3, binary php, relativized php (m,t,n<=3), counting, perfect matching on every graph with <= 5 vertices, clique-colouring, each under CNF and OPB classes and with cnfgen and networkx graph objects, decided over all 2^n assignments (n <= 18 quick / 22 thorough): models(F) == set of documented objects, hence satisfiable iff an object exists and one model per object.  Larger instances: random objects must satisfy, one-condition-broken near misses must falsify.",
+    note="Trusts vmon/tt.py and the object enumerators written from the docstrings (cross-checked against closed forms such as 'php unsat iff m>n').  Atoms are read from the variable names the formula reports.",
+    design="5/C01"),
+ "C02": dict(
+    technique="runtime monitoring: real generators vs brute-force graph algorithms; exact (projected) model sets by truth table, model counts vs witness counts",
+    text="Exploration: Tseitin (every charge vector incl. short/long/non-boolean), k-colouring, even colouring, dominating set (both encodings, projection on the set variables), tiling, isomorphism/automorphism, (induced) subgraph, clique (unary and binary, +-symmetry breaking), Ramsey witness, on every simple graph with <= 4 vertices and seeded 5/6-vertex graphs, CNF and OPB, cnfgen and networkx inputs; model set compared object by object with brute-force witnesses (so counts such as 2^(|E|-|V|+c) and #isomorphisms are implied and the Tseitin closed form is asserted).",
+    note="Trusts vmon/tt.py and the brute-force algorithms in C02.py.  One known finding (RamseyWitnessFormula ignores s when k != s) is listed in known_findings.json.",
+    design="5/C02"),
+ "C03": dict(
+    technique="runtime monitoring: truth-table unsatisfiability / colouring enumeration under the cap plus clause-set comparison with independent named-atom axiom generators at every size",
+    text="Exploration: ordering principles (5 variants x plant) for N<=5 and on every graph with <= 4 vertices, pebbling on every DAG with <= 5 vertices, stone / sparse stone formulas, CPLS, Pitfall under several RNG states, Ramsey numbers, van der Waerden (2-3 colours, lengths 1..4), Pythagorean triples: exact unsatisfiability or model-set equality with enumerated orders/colourings; clauses as sets of named literals equal to a reference axiom generator, also at large sizes (op 12, pyramids, cpls 4 4 4, ptn 200).",
+    note="Reference axiom generators are re-statements of the docstrings, validated semantically only under the cap.  Pitfall: hard part, gadget locality, easy part and unsatisfiability only (pipe/tail gadgets have no independent specification offline).",
+    design="5/C03"),
  "C04": dict(
     technique="runtime monitoring: every builder call executed on a fresh formula, model set by truth table vs. the stated arithmetic/functional condition evaluated per assignment",
     text="Exploration: all literal lists up to length 5 (quick) / 7 (thorough) with every polarity pattern, container type, operator and constant -2..n+2 are executed for CNF and OPB parents and decided over all 2^n assignments; mappings up to 3x3 with every sparse domain up to 6 possible pairs, binary mappings up to 3 -> 11; normalize_opb on 20k/200k seeded constraints.  Held means: no executed call disagreed with the arithmetic condition.",
